@@ -149,6 +149,18 @@ def safe_parse(json_str):
   except ValueError:
     return {}
 
+# Like safe_parse, but also returns an empty object for valid json that is not an object.
+def safe_parse_dict(json_str):
+  obj = safe_parse(json_str)
+  return obj if isinstance(obj, dict) else {}
+
+# Converts a timestamp in milliseconds to whole seconds; 0 for anything that isn't a finite number.
+def ms_to_seconds(ms):
+  try:
+    return int(ms / 1000)
+  except (TypeError, ValueError, OverflowError):
+    return 0
+
 @migration(schema_version=1)
 def migration1(tdset):
   """
@@ -609,7 +621,7 @@ def migration15(tdset):
   sections = list(actions.transpose_bulk_action(tdset.all_tables['_grist_Views_section']))
   fields = list(actions.transpose_bulk_action(tdset.all_tables['_grist_Views_section_field']))
 
-  specs = {s.id: safe_parse(s.filterSpec) for s in sections}
+  specs = {s.id: safe_parse_dict(s.filterSpec) for s in sections}
 
   # Move filter data from sections to fields
   for f in fields:
@@ -654,9 +666,11 @@ def migration16(tdset):
       parsed_options = json.loads(widget_options)
     except Exception:
       return None   # If invalid widgetOptions, skip this column.
+    if not isinstance(parsed_options, dict):
+      return None   # Likewise if widgetOptions is not a json object.
 
     visible_col_id = parsed_options.pop('visibleCol', None)
-    if not visible_col_id:
+    if not visible_col_id or not isinstance(visible_col_id, str):
       return None
 
     # Find visible_col_id as the column name in the appropriate table.
@@ -1135,7 +1149,7 @@ def migration34(tdset):
     # existing raw section filters to continue appearing in the filter bar, we'll pretend
     # here that raw sections have a filterBar value of True. Note that after this migration
     # it will be possible for raw sections to have unpinned filters.
-    s.id: bool(s.id in raw_section_ids or safe_parse(s.options).get('filterBar', False))
+    s.id: bool(s.id in raw_section_ids or safe_parse_dict(s.options).get('filterBar', False))
     for s in sections
   }
 
@@ -1173,7 +1187,7 @@ def migration35(tdset):
   acl_rule_updates = []
   for acl_rule_rec in acl_rules:
     acl_formula = safe_parse(acl_rule_rec.aclFormulaParsed)
-    if not acl_formula or acl_formula[0] != 'Comment':
+    if not isinstance(acl_formula, list) or len(acl_formula) < 3 or acl_formula[0] != 'Comment':
       continue
 
     acl_rule_updates.append((
@@ -1367,8 +1381,8 @@ def migration45(tdset):
       time_updated = content.get('timeUpdated')
 
       # Convert milliseconds to seconds for DateTime columns
-      time_created_values.append(int(time_created / 1000) if time_created is not None else 0)
-      time_updated_values.append(int(time_updated / 1000) if time_updated is not None else 0)
+      time_created_values.append(ms_to_seconds(time_created))
+      time_updated_values.append(ms_to_seconds(time_updated))
       resolved_values.append(bool(content.get('resolved', False)))
 
       # Remove these fields from JSON content if they exist
